@@ -95,16 +95,28 @@ def is_null_const(fn, i):
 
 
 def cmp_parts(fn, e):
-    """(op, lhs, rhs) for a comparison node after stripping, else None"""
+    """(op, lhs, rhs) of the comparison that holds when e is true, else None. Spelling-independent: wrappers and `!` are
+    folded (`!(a < b)` is `a >= b`), and a constant operand is always reported on the right (`0 == x` is `x == 0`)."""
     j = fn.strip(e)
     n = fn.nodes[j]
-    if n["k"] == "BinaryOperator" and n["op"] in ("==", "!=", "<", "<=", ">", ">="):
-        return n["op"], n["c"][0], n["c"][1]
+    pol = True
+    while n["k"] == "UnaryOperator" and n["op"] == "!":
+        j = fn.strip(n["c"][0])
+        n = fn.nodes[j]
+        pol = not pol
+    if n["k"] == "BinaryOperator" and n["op"] in NEG:
+        op, l, r = n["op"], n["c"][0], n["c"][1]
+        if not pol:
+            op = NEG[op]
+        if fn.cv(l) is not None and fn.cv(r) is None:
+            op, l, r = SWAP[op], r, l
+        return op, l, r
     return None
 
 
 NEG = {"==": "!=", "!=": "==", "<": ">=", ">=": "<", ">": "<=", "<=": ">"}
 SWAP = {"==": "==", "!=": "!=", "<": ">", ">": "<", "<=": ">=", ">=": "<="}
+IMPL = {"<": ("<", "<=", "!="), "<=": ("<=",), "==": ("==", "<=", ">="), ">": (">", ">=", "!="), ">=": (">=",), "!=": ("!=",)}
 
 
 def norm_cmp(fn, e, pol):
@@ -116,6 +128,98 @@ def norm_cmp(fn, e, pol):
     if not pol:
         op = NEG[op]
     return op, l, r
+
+
+def rel(fn, e, pol, is_a, is_b):
+    """the relation `a OP b` established by taking branch `pol` of e, whichever way round it is written; is_a / is_b
+    recognise the (wrapper-stripped) operands. None when e is not a comparison of a with b."""
+    c = norm_cmp(fn, e, pol)
+    if c is None:
+        return None
+    op, l, r = c
+    ls, rs = fn.strip(l), fn.strip(r)
+    if is_a(ls) and is_b(rs):
+        return op
+    if is_a(rs) and is_b(ls):
+        return SWAP[op]
+    return None
+
+
+def facts_of(fn, e, pol=True):
+    """atomic (expr, polarity) facts implied by expression e having truth value pol: a true conjunction makes every
+    conjunct true, a false disjunction every disjunct false, `!` flips (the expression-level twin of CFG.facts)"""
+    out = []
+
+    def rec(i, pol):
+        i = fn.strip(i)
+        n = fn.nodes[i]
+        while n["k"] == "UnaryOperator" and n["op"] == "!":
+            i = fn.strip(n["c"][0])
+            n = fn.nodes[i]
+            pol = not pol
+        out.append((i, pol))
+        if n["k"] == "BinaryOperator" and ((n["op"] == "&&" and pol) or (n["op"] == "||" and not pol)):
+            rec(n["c"][0], pol)
+            rec(n["c"][1], pol)
+    rec(e, pol)
+    return out
+
+
+def no_contradiction(fn, contradicts):
+    """edge filter: keep the paths that are consistent with an assumption, i.e. drop every edge one of whose facts
+    contradicts(expr, pol) it. More robust than looking for the edge that *establishes* the assumption, which does not
+    exist when the test is part of a compound condition (`if (a || x == 0)`)."""
+    cfg = fn.cfg
+
+    def ok(lab, p, q):
+        return not any(isinstance(e, int) and contradicts(e, pol) for e, pol in cfg.facts(lab))
+    return ok
+
+
+def oriented(fn, e, pol, is_a, is_b):
+    """(op, a, b) such that taking branch pol of e establishes `a op b`, with a recognised by is_a and b by is_b
+    (operands as wrapper-stripped nodes), whichever way round the comparison is written; else None"""
+    c = norm_cmp(fn, e, pol)
+    if c is None:
+        return None
+    op, l, r = c
+    ls, rs = fn.strip(l), fn.strip(r)
+    if is_a(ls) and is_b(rs):
+        return op, ls, rs
+    if is_a(rs) and is_b(ls):
+        return SWAP[op], rs, ls
+    return None
+
+
+def establishes(fn, e, pol, want, is_a, is_b):
+    """taking branch pol of e establishes `a want b` (directly or by implication: a < b gives a <= b and a != b, ...)"""
+    op = rel(fn, e, pol, is_a, is_b)
+    return op is not None and want in IMPL[op]
+
+
+def branch_stmt(fn, e):
+    """kind of the statement whose condition the expression e belongs to: IfStmt / WhileStmt / ForStmt / DoStmt /
+    ConditionalOperator, or None"""
+    x = e
+    while x is not None:
+        p = fn.parent.get(x)
+        if p is None:
+            return None
+        n = fn.nodes[p]
+        if n["k"] in ("IfStmt", "WhileStmt", "ForStmt", "DoStmt", "ConditionalOperator") and n.get("cond") is not None and x == n["cond"]:
+            return n["k"]
+        if n["k"] in ("CompoundStmt", "DeclStmt", "ReturnStmt"):
+            return None
+        x = p
+    return None
+
+
+def is_const(fn, pred=None):
+    return lambda j: fn.cv(j) is not None and (pred is None or pred(fn.cv(j)))
+
+
+def is_local(fn, d):
+    return lambda j: fn.nodes[j]["k"] == "DeclRefExpr" and fn.nodes[j]["d"] == d
 
 
 def fact_nonnull(fn, e, pol, is_x):
@@ -500,8 +604,21 @@ def consistent_edges(fn, e, pol):
     return ok
 
 
-def canon(fn, i, pmap=None):
-    """canonical text of an expression with parameters replaced by $k (identity by position, not by name)"""
+def single_def(fn, d):
+    """the initialiser of local d when that is its only definition (declared with a value, never assigned again, address
+    never taken), else None: such a local is just a name for its initialiser"""
+    cache = fn.__dict__.setdefault("_single_def", {})
+    if d not in cache:
+        defs = fn.var_defs(d)
+        cache[d] = defs[0][1] if len(defs) == 1 and defs[0][2] == "decl" and defs[0][1] is not None else None
+    return cache[d]
+
+
+def canon(fn, i, pmap=None, expand=True, _depth=6):
+    """canonical text of an expression with parameters replaced by $k (identity by position, not by name); commutative
+    operands are ordered, > and >= are written as < and <=, negated comparisons are folded. With expand=True a local
+    that merely names its initialiser (single_def) is replaced by that initialiser, so that introducing or removing
+    such a temporary does not change the text; entries of pmap are never expanded."""
     if pmap is None:
         pmap = {d: "$%d" % k for k, d in enumerate(fn.pids)}
     i = fn.strip(i)
@@ -510,11 +627,15 @@ def canon(fn, i, pmap=None):
     if "cv" in n and k != "DeclRefExpr":
         return str(n["cv"])
     if k == "DeclRefExpr":
+        if expand and n["d"] not in pmap and n.get("dk") == "local" and _depth > 0:
+            init = single_def(fn, n["d"])
+            if init is not None:
+                return canon(fn, init, pmap, expand, _depth - 1)
         return pmap.get(n["d"], n["n"])
     if k == "MemberExpr":
-        return canon(fn, n["c"][0], pmap) + ("->" if n["arrow"] else ".") + n["fld"]
+        return canon(fn, n["c"][0], pmap, expand, _depth) + ("->" if n["arrow"] else ".") + n["fld"]
     if k in ("BinaryOperator", "CompoundAssignOperator"):
-        a, b = canon(fn, n["c"][0], pmap), canon(fn, n["c"][1], pmap)
+        a, b = canon(fn, n["c"][0], pmap, expand, _depth), canon(fn, n["c"][1], pmap, expand, _depth)
         op = n["op"]
         if op in ("==", "!=", "+", "*", "&", "|", "&&", "||") and b < a:
             a, b = b, a
@@ -522,38 +643,54 @@ def canon(fn, i, pmap=None):
             a, b, op = b, a, SWAP[op]
         return "(%s %s %s)" % (a, op, b)
     if k == "UnaryOperator":
-        return n["op"] + canon(fn, n["c"][0], pmap)
+        if n["op"] == "!":
+            c = cmp_parts(fn, i)
+            if c is not None:
+                # `!(a < b)` is spelled like `a >= b`
+                a, b, op = canon(fn, c[1], pmap, expand, _depth), canon(fn, c[2], pmap, expand, _depth), c[0]
+                if op in ("==", "!=") and b < a:
+                    a, b = b, a
+                elif op in (">", ">="):
+                    a, b, op = b, a, SWAP[op]
+                return "(%s %s %s)" % (a, op, b)
+        return n["op"] + canon(fn, n["c"][0], pmap, expand, _depth)
     if k == "CallExpr":
-        return (n.get("callee") or canon(fn, n["fn"], pmap)) + "(" + ", ".join(canon(fn, a, pmap) for a in n["args"]) + ")"
+        return (n.get("callee") or canon(fn, n["fn"], pmap, expand, _depth)) + "(" + ", ".join(canon(fn, a, pmap, expand, _depth) for a in n["args"]) + ")"
     if k == "ConditionalOperator":
-        return "(%s ? %s : %s)" % (canon(fn, n["cond"], pmap), canon(fn, n["then"], pmap), canon(fn, n["else"], pmap))
+        return "(%s ? %s : %s)" % (canon(fn, n["cond"], pmap, expand, _depth), canon(fn, n["then"], pmap, expand, _depth), canon(fn, n["else"], pmap, expand, _depth))
     if k == "ArraySubscriptExpr":
-        return canon(fn, n["c"][0], pmap) + "[" + canon(fn, n["c"][1], pmap) + "]"
+        return canon(fn, n["c"][0], pmap, expand, _depth) + "[" + canon(fn, n["c"][1], pmap, expand, _depth) + "]"
     if "cv" in n:
         return str(n["cv"])
     return fn.text(i)
 
 
-def dnf(fn, i, neg=False):
+def dnf(fn, i, neg=False, pmap=None):
     """disjunctive normal form of a boolean expression over && || ! : frozenset of frozensets of (atom, polarity)"""
     i = fn.strip(i)
     n = fn.nodes[i]
     if n["k"] == "BinaryOperator" and n["op"] in ("&&", "||"):
         is_and = (n["op"] == "&&") != neg
-        a, b = dnf(fn, n["c"][0], neg), dnf(fn, n["c"][1], neg)
+        a, b = dnf(fn, n["c"][0], neg, pmap), dnf(fn, n["c"][1], neg, pmap)
         if is_and:
             return frozenset(x | y for x in a for y in b)
         return a | b
     if n["k"] == "UnaryOperator" and n["op"] == "!":
-        return dnf(fn, n["c"][0], not neg)
+        return dnf(fn, n["c"][0], not neg, pmap)
     c = cmp_parts(fn, i)
     if c is not None and c[0] in ("==", "!="):
         pol = (c[0] == "==") != neg
-        a, b = canon(fn, c[1]), canon(fn, c[2])
+        a, b = canon(fn, c[1], pmap), canon(fn, c[2], pmap)
         if b < a:
             a, b = b, a
         return frozenset([frozenset([("%s == %s" % (a, b), pol)])])
-    return frozenset([frozenset([(canon(fn, i), not neg)])])
+    if c is not None:
+        # order comparisons: the negation is folded into the operator and the atom is written with < or <=
+        op, a, b = (NEG[c[0]] if neg else c[0]), canon(fn, c[1], pmap), canon(fn, c[2], pmap)
+        if op in (">", ">="):
+            op, a, b = SWAP[op], b, a
+        return frozenset([frozenset([("%s %s %s" % (a, op, b), True)])])
+    return frozenset([frozenset([(canon(fn, i, pmap), not neg)])])
 
 
 def reaching_defs(fn, d, node):
